@@ -532,6 +532,23 @@ impl<'a> Sim<'a> {
             let id = self.t.pick(&acc).clone();
             sets.push(self.servers[n].have[&id].state_after.clone());
         }
+        // a third of the probes thin the sets out (arbitrary state sets are legal input: partial
+        // states, a set holding only the create event and hence an empty auth chain, ...)
+        if self.t.chance(1, 3) {
+            let mut thinned = Vec::new();
+            for s in &sets {
+                let keep_pct = *self.t.pick(&[10u32, 40, 70, 90]);
+                let mut m: StateSet = s.iter().filter(|_| self.t.chance(keep_pct, 100)).map(|(k, v)| (k.clone(), v.clone())).collect();
+                if m.is_empty() {
+                    if let Some((k, v)) = s.iter().next() {
+                        m.insert(k.clone(), v.clone());
+                    }
+                }
+                thinned.push(Rc::new(m));
+            }
+            sets = thinned;
+            self.bump("probe.thinned-subset-resolutions");
+        }
         self.bump("probe.subset-resolutions");
         self.resolve_on(n, &sets, "subset-probe");
     }
